@@ -5,7 +5,9 @@ M (WebSocket WRITE side, C01) — transcription of the frame construction in src
   coap_ws_mask_data      data[i] ^= ws->mask_key[i % 4]
   coap_ws_write          frame header (FIN | binary opcode, 7-bit / 16-bit / 64-bit payload length, MASK bit and the
                          4-byte masking key from coap_prng_lkd() when ws->state == COAP_SESSION_TYPE_CLIENT), copy of
-                         the payload, masking, ONE l_write of header ++ payload to the lower layer, return value
+                         the payload, masking, ONE l_write of header ++ payload to the lower layer, return value;
+                         AFTER the `fix:` commit for partial writes (header and progress within the frame kept in
+                         tx_header / tx_hdr_len / tx_hdr_ofs / tx_data_ofs / tx_data_left, continuation calls)
   coap_ws_close          the Close frame (FIN | close opcode, length 2, status code, masked for the client role)
 
 External calls are parameters: `key` = the four bytes coap_prng_lkd() puts into the header; `lw` = the lower
@@ -28,6 +30,10 @@ structure St where
   role : Role := .client
   maskKey : Bytes := []          -- ws->mask_key
   closeReason : Nat := 0         -- uint16_t
+  txHdr : Bytes := []            -- ws->tx_header[0 .. tx_hdr_len)
+  txHdrOfs : Nat := 0            -- ws->tx_hdr_ofs
+  txDataOfs : Nat := 0           -- ws->tx_data_ofs
+  txDataLeft : Nat := 0          -- ws->tx_data_left
   deriving DecidableEq, Repr
 
 /-- `x & 0xff` stored into a uint8_t -/
@@ -56,16 +62,46 @@ def header (role : Role) (key : Bytes) (datalen : Nat) : Bytes :=
 def frame (role : Role) (key data : Bytes) : Bytes :=
   header role key data.length ++ (match role with | .client => maskData key 0 data | .server => data)
 
-/-- `coap_ws_write(session, data, datalen)`: (return value, state, the bytes the lower layer accepted) -/
+/-- `coap_ws_write(session, data, datalen)` AFTER the fix of the partial-write defect: (return value, state, the
+bytes the lower layer accepted).  A new frame is started when nothing of a frame is part way to the lower layer
+(`tx_hdr_ofs == 0`, or header and announced payload completely taken); otherwise `data` continues the current
+frame: no new header, no more than the frame announced, masked from offset `tx_data_ofs` with the key that sits at
+the end of the stored header.  `key` (coap_prng_lkd) is only drawn when a frame is started. -/
 def wsWrite (st : St) (key data : Bytes) (lw : Nat → Int) : Int × St × Bytes :=
   if !st.up then (0, st, []) else
   if st.sentClose then (0, st, []) else
-  let hdrLen := (header st.role key data.length).length
-  let st' : St := match st.role with | .client => { st with maskKey := key } | .server => st
-  let wdata := frame st.role key data
+  let fresh : Bool := st.txHdrOfs = 0 || (st.txHdrOfs = st.txHdr.length && st.txDataLeft = 0)
+  let st1 : St :=
+    if fresh then
+      { st with txHdr := header st.role key data.length, txHdrOfs := 0, txDataOfs := 0, txDataLeft := data.length,
+                maskKey := match st.role with | .client => key | .server => st.maskKey }
+    else st
+  let data1 := if !fresh && data.length > st.txDataLeft then data.take st.txDataLeft else data
+  let hdrLeft := st1.txHdr.drop st1.txHdrOfs
+  let body := match st.role with
+    | .client => maskData (st1.txHdr.drop (st1.txHdr.length - 4)) st1.txDataOfs data1
+    | .server => data1
+  let wdata := hdrLeft ++ body
   let ret := lw wdata.length
+  if ret ≤ 0 then (ret, st1, []) else
   let wire := wdata.take ret.toNat
-  if ret < hdrLen then (ret, st', wire) else ((data.length : Int), st', wire)
+  if ret.toNat < hdrLeft.length then (0, { st1 with txHdrOfs := st1.txHdrOfs + ret.toNat }, wire) else
+  let sent := ret.toNat - hdrLeft.length
+  ((sent : Int), { st1 with txHdrOfs := st1.txHdr.length, txDataOfs := st1.txDataOfs + sent,
+                            txDataLeft := st1.txDataLeft - sent }, wire)
+
+/-- the caller of the session layer's `l_write` (coap_send_internal → coap_session_delay_pdu / coap_write_session:
+`partial_write += bytes_written`): offers the data not yet taken until everything is, one lower-layer behaviour per
+call; a negative return ends the attempt.  (done, state, bytes on the wire) -/
+def sendAll (key : Bytes) : List (Nat → Int) → St → Bytes → Bool × St × Bytes
+  | [], st, _ => (false, st, [])
+  | lw :: lws, st, rest =>
+    let r := wsWrite st key rest lw
+    if r.1 < 0 then (false, r.2.1, r.2.2)
+    else if r.1.toNat ≥ rest.length then (true, r.2.1, r.2.2)
+    else
+      let q := sendAll key lws r.2.1 (rest.drop r.1.toNat)
+      (q.1, q.2.1, r.2.2 ++ q.2.2)
 
 /-- the Close frame of `coap_ws_close`: `WS_B0_FIN_BIT | WS_OP_CLOSE`, `ws_header[1] = 2` (`|= WS_B1_MASK_BIT` and the
 key for the client), the status code high byte first, masked for the client -/
